@@ -482,8 +482,12 @@ vtop_init(kdump_ctx_t *ctx)
 				     ARRAY_SIZE(opts), opts);
 
 	rwlock_rdlock(&ctx->shared->lock);
-	if (axres != ADDRXLAT_OK)
+	if (axres != ADDRXLAT_OK) {
+		/* Try again next time if memory was short now. */
+		if (axres == ADDRXLAT_ERR_NOMEM)
+			ctx->xlat->dirty = true;
 		return addrxlat2kdump(ctx, axres);
+	}
 
 	if (!attr_isset(gattr(ctx, GKI_pteval_size)))
 		set_pteval_size(ctx);
